@@ -212,6 +212,11 @@ impl<'a, H: HashChain> InMemoryHssPublicKey<'a, H> {
 
         let public_key = InMemoryLmsPublicKey::new(data.get(index..)?)?;
 
+        // The public key has to be exactly u32(L) || LMS public key
+        if index + public_key.as_slice().len() != data.len() {
+            return None;
+        }
+
         Some(Self {
             public_key,
             level: level as usize,
